@@ -595,6 +595,17 @@ def replay(path):
     return 0
 
 
+def replay_shard(paths):
+    col = Collector()
+    failed = set()
+    for path in paths:
+        rec = common.load_replay(path)
+        replay_one(col, rec["case"], failed)
+    for k in sorted(failed):
+        col.notes.append("failed-kind:" + k)
+    return col
+
+
 def known_open_missed():
     """(class, detail) of the open 'missed' findings with an exact detail (the generator steps over them)."""
     out = []
@@ -634,12 +645,14 @@ def main(tier, seed, t0):
     # 1. committed regression inputs, calibration projects first
     files = common.replay_files(ID)
     files.sort(key=lambda p: (0 if os.path.basename(p).startswith("calibration-") else 1, p))
-    ncal = 0
-    for path in files:
-        rec = common.load_replay(path)
-        if "calibration" in rec["case"]:
-            ncal += 1
-        replay_one(col, rec["case"], failed_kinds)
+    ncal = sum(1 for p in files if os.path.basename(p).startswith("calibration-"))
+    nsh = max(1, min(common.NCPU, len(files)))
+    rp = common.run_shards(replay_shard, [files[i::nsh] for i in range(nsh)]) if files else Collector()
+    for n in rp.notes:
+        if n.startswith("failed-kind:"):
+            failed_kinds.add(n.split(":", 1)[1])
+    rp.notes = [n for n in rp.notes if not n.startswith("failed-kind:")]
+    col.merge(rp)
     if ncal == 0:
         col.error("no calibration projects under replays/%s" % ID)
     avoid = set(failed_kinds)
